@@ -1,13 +1,16 @@
 #!/bin/bash
 # usage: confirm_mutants.sh C01 C03 ...   (takes /tmp/wt/<pid>/_mutant/{A,B}, confirms in a scratch worktree at /repo HEAD,
 # copies confirmed ones to /verif/seeded/<pid>-<X>/)
+# env: LABELS (default "A B"), SRCROOT (default /tmp/wt/ ; the source is $SRCROOT<pid>/_mutant/<label>)
 set -u
+LABELS=${LABELS:-A B}
+SRCROOT=${SRCROOT:-/tmp/wt/}
 WT=/tmp/wt/confirm
 git -C /repo worktree remove --force $WT 2>/dev/null
 git -C /repo worktree add -q --detach $WT HEAD || exit 1
 for pid in "$@"; do
-  for X in A B; do
-    src=/tmp/wt/$pid/_mutant/$X
+  for X in $LABELS; do
+    src=$SRCROOT$pid/_mutant/$X
     [ -f $src/patch.diff ] || { echo "$pid-$X: no patch"; continue; }
     cd $WT && git checkout -q -- . && git clean -qfd
     rm -rf $WT/_mutant; mkdir -p $WT/_mutant; cp -r $src $WT/_mutant/$X
